@@ -349,8 +349,54 @@ func (im *Impl) QueueKeys() []int {
 	return out
 }
 
-// Obs is the full observation after a step (same text as the model's obs / qobs line).
-func (im *Impl) Obs(u int) string {
+// Safe accessors: every call into the library goes through vlib.Try. perr is "" when the call
+// returned and the panic value (as text) when it panicked.
+func guarded(f func()) (perr string) {
+	if p, v := vlib.Try(f); p {
+		return fmt.Sprintf("panic: %v", v)
+	}
+	return ""
+}
+
+func (im *Impl) QLen() (n int, perr string) {
+	perr = guarded(func() { n = im.Q.Len() })
+	return
+}
+
+func (im *Impl) QContains(k int) (in bool, perr string) {
+	perr = guarded(func() { in = im.Q.Contains(k) })
+	return
+}
+
+func (im *Impl) QPriority(k int) (p int, perr string) {
+	perr = guarded(func() { p = im.Q.Priority(k) })
+	return
+}
+
+func (im *Impl) HLen() (n int, perr string) {
+	perr = guarded(func() { n = im.H.Len() })
+	return
+}
+
+// Size is Len of whichever object the case is about (0 when Len panics).
+func (im *Impl) Size() int {
+	var n int
+	if im.Kind == "pq" {
+		n, _ = im.QLen()
+	} else {
+		n, _ = im.HLen()
+	}
+	return n
+}
+
+// Obs is the full observation after a step (same text as the model's obs / qobs line); "panic" when
+// one of the observing calls panicked.
+func (im *Impl) Obs(u int) string { return try(func() string { return im.obs(u) }) }
+
+// Dump is the array layout (same text as the model's dump / qdump line); "panic" when a call panicked.
+func (im *Impl) Dump() string { return try(im.dump) }
+
+func (im *Impl) obs(u int) string {
 	if im.Kind == "pq" {
 		var b strings.Builder
 		fmt.Fprintf(&b, "len=%d peek=%s", im.Q.Len(), try(func() string { return strconv.Itoa(im.Q.Peek()) }))
@@ -366,8 +412,7 @@ func (im *Impl) Obs(u int) string {
 	return fmt.Sprintf("len=%d peek=%s", im.H.Len(), try(func() string { return showItem(im.H.Peek()) }))
 }
 
-// Dump is the array layout (same text as the model's dump / qdump line).
-func (im *Impl) Dump() string {
+func (im *Impl) dump() string {
 	if im.Kind == "pq" {
 		ks := im.QueueKeys()
 		l := make([][2]int, len(ks))
@@ -390,7 +435,7 @@ func RunImpl(c Case, observe bool) []string {
 	out := []string{"ok"}
 	obs := func() {
 		if observe {
-			out = append(out, try(func() string { return im.Obs(c.U) }), try(im.Dump))
+			out = append(out, im.Obs(c.U), im.Dump())
 		}
 	}
 	obs()
